@@ -710,12 +710,17 @@ def run_write(case: dict, order=None, rots=None, timeout: float = 20.0) -> dict:
             mesh.write(path3)
             third["outcome"] = "ok"
             third["text"] = open(path3).read()
+            third["internals"] = read_internals(mesh)
         except Hang:
             third["outcome"] = "hang"
         except Exception as e:
             third["outcome"] = type(e).__name__
             third["message"] = str(e)[:200]
             third["file_written"] = os.path.exists(path3)
+            try:
+                third["internals"] = read_internals(mesh)
+            except Exception:
+                pass
         finally:
             signal.setitimer(signal.ITIMER_REAL, 0)
     signal.signal(signal.SIGALRM, old)
@@ -931,6 +936,26 @@ def prepare(case: dict, order=None, rots=None):
         obs["third"] = {k: th.get(k) for k in ("outcome", "message", "late_error", "file_written")}
         if th.get("outcome") == "ok":
             obs["third"]["hex"] = parse_hex_lines(th["text"])
+        # the session as M-HIST sees it: the same schedule, the chops placed so far (T_C02_session_history_free)
+        if "internals" in th and not sec.get("stretched") and not th.get("late_error") and not (unreal or extreme):
+            it3 = th["internals"]
+            it3["pos_of_block"] = pos_of_block
+            late_applied = []
+            for ch in case.get("late", []):
+                b = ch["block"]
+                if rots is not None:
+                    ax = remap_axis(asm["blocks"][b]["rot"], rots[b], ch["axis"])
+                    calls = remap_calls(asm["blocks"][b]["rot"], rots[b], ch["axis"], ch["calls"])
+                else:
+                    ax, calls = ch["axis"], ch["calls"]
+                late_applied.append({"block": b, "axis_now": ax, "calls_now": calls})
+            chops3, err3 = resolve_chops({"chops": applied + late_applied}, it3)
+            if not err3:
+                obs["third"]["model"] = {
+                    "outcome": th.get("outcome"), "message": th.get("message"), "hex": obs["third"].get("hex"),
+                    "internals": {k: it3[k] for k in ("nbrs", "coinc", "verts", "lens", "specs", "counts", "simple")},
+                    "chops": chops3,
+                }
     if "typo_outcome" in res:
         obs["typo"] = {"outcome": res["typo_outcome"], "file_written": res["typo_file_written"]}
     return obs
@@ -1091,13 +1116,24 @@ def oracle_preserve(case: dict, obs: dict, vertices: Optional[List[List[float]]]
             continue
         kw = ch["calls"][0]
         pres = kw.get("preserve", "c2c_expansion")
-        if pres == "c2c_expansion" or pres not in kw:
-            continue  # only sizes the user gave explicitly
+        if pres == "c2c_expansion":
+            continue
         fam = fam_of[(ch["block"], ch["axis"])]
         chopped_here = [c for c in case["chops"] if fam_of[(c["block"], c["axis"])] == fam]
         if len(chopped_here) != 1:
             continue
-        size = kw[pres]
+        if pres in kw:
+            size = kw[pres]  # the size the user gave explicitly
+        elif "count" in kw and ("total_expansion" in kw or "c2c_expansion" in kw) and vertices is None:
+            # the size that count and expansion give on the chopped axis itself (its average edge length)
+            n = int(kw["count"])
+            tot = kw["total_expansion"] if "total_expansion" in kw else kw["c2c_expansion"] ** (n - 1)
+            x = 3 * pos_to_b.index(ch["block"]) + ch["axis"]
+            avg = sum(obs["internals"]["lens"][4 * x + k] for k in range(4)) / 4
+            first, last = first_last_size(avg, n, tot)
+            size = first if pres == "start_size" else last
+        else:
+            continue
         # orientation by BFS over lattice vertex pairs: start vertex of every wire of the family
         start_of: Dict[Tuple[int, int, int], Any] = {}
         wires = []
